@@ -76,7 +76,7 @@ def gen_case(rng, tier, idx):
     cg = {"name": "cg_c11_%d" % idx, "style": style, "enums": enums,
           "fields": [] if style == "lm" else allf, "ext": allf if style == "lm" else [],
           "options": {}, "variants": [{"cps": cps, "crosses": crosses}]}
-    return {"cg": cg, "hseed": rng.getrandbits(32), "nrand": rng.choice([60, 120, 200])}
+    return {"cg": cg, "hseed": rng.getrandbits(32), "nrand": rng.choice([60, 120, 200] if tier == "quick" else [120, 300, 600])}
 
 
 def exec_case(spec):
